@@ -115,6 +115,13 @@ impl Send {
 
         Self::check_headers(frame.fields())?;
 
+        // PUSH_PROMISE may only be sent on a stream that is still open for
+        // sending ("open" or "half-closed (remote)"): not after the response
+        // ended, and not once the stream has been reset by either side.
+        if stream.state.is_send_closed() {
+            return Err(UserError::InactiveStreamId);
+        }
+
         // Queue the frame for sending
         self.prioritize
             .queue_frame(frame.into(), buffer, stream, task);
